@@ -24,7 +24,7 @@ type spec struct {
 	Gated   bool // the subscriber starts emitting only after Running() (else immediately)
 	// Ends: the handler's subscription ends before / while Close is called: "stop" = Handler.Stop() runs concurrently
 	// with the closers, "subends" = the subscriber closes its channel right after handing out its last message
-	Ends string
+	Ends    string
 	C       int
 	DPORSec float64
 }
